@@ -20,18 +20,23 @@ vars == <<st, obs, last, steps, bad>>
 Inits == { <<1>>, <<2, 1>>, <<1, 2, 3>> }      \* ring: initial keyrings (what the operator's file lists at start)
 
 ------------------------------------------------------------------------------
-RingInit == /\ \E r \in Inits : st = KR(r, r)
-            /\ obs = KObs(st, TRUE, FALSE) /\ last = [a |-> "kinit"] /\ steps = 0 /\ bad = {}
+\* the first step is the start of the node: the agent loads the operator's keyring file
+RingInit == st = KR(<<>>, <<>>) /\ obs = 0 /\ last = [a |-> "init"] /\ steps = 0 /\ bad = {}
 RingNext ==
   /\ steps < MaxSteps
-  /\ \E op \in {"install", "use", "remove"}, k \in KeyArgs :
-       LET r == KApply(st, op, k)
-           o == KObs(r.s, r.ok, r.s.file # st.file) IN
-       /\ st' = r.s
-       /\ obs' = o
-       /\ last' = [a |-> "kop", op |-> op, k |-> k]
-       /\ steps' = steps + 1
-       /\ bad' = bad \cup C22Clauses(obs, o)
+  /\ IF steps = 0
+       THEN \E r \in Inits :
+              /\ st' = KR(r, r) /\ obs' = KObs(KR(r, r), TRUE, FALSE)
+              /\ last' = [a |-> "kinit", init |-> r] /\ steps' = 1
+              /\ bad' = C22Clauses(KObs(KR(r, r), TRUE, FALSE), KObs(KR(r, r), TRUE, FALSE))
+       ELSE \E op \in {"install", "use", "remove"}, k \in KeyArgs :
+              LET r == KApply(st, op, k)
+                  o == KObs(r.s, r.ok, r.s.file # st.file) IN
+              /\ st' = r.s
+              /\ obs' = o
+              /\ last' = [a |-> "kop", op |-> op, k |-> k]
+              /\ steps' = steps + 1
+              /\ bad' = bad \cup C22Clauses(obs, o)
 
 ------------------------------------------------------------------------------
 Variant(kind, keys, pk) == [kind |-> kind, keys |-> keys, pk |-> pk]
